@@ -67,7 +67,12 @@ SAFE_NICKS = ["qq", "rr", "ss", "tt"]
 HOSTILE_NAMES = ["yes", "null", "12", "~", "héllo", "007", "true", "1e3", "No"]
 TABLES = ["Q", "R", "S"]
 FIELD_NAMES = ["f1", "f2", "f3", "f4", "f5", "f6"]
-HOSTILE_FIELDS = ["12", "null", "yes", "a b", "é"]
+HOSTILE_FIELDS = ["12", "null", "yes", "a b", "é", "x.y", "a-b", "名前", "1st", "a: b"]
+# the NAME of a field must not matter: hidden (`__x`), single underscore, id-adjacent names
+UNDERSCORE_FIELDS = ["__h", "__x1", "__hidden_note", "_u", "_legacy_code", "_sf_code", "_id", "Id", "ID", "id2", "idx"]
+# tables that get rows without being a top-level template of their own (so they are not in
+# nicknames_and_tables): nested children, friends, hidden tables
+EXTRA_KEYS = ["kid", "fr", "jfr", "hid", "kidh"]
 
 
 def yq(s):
@@ -152,8 +157,11 @@ def gen_case(rng):
         rng.shuffle(names)
         for fn in names[: rng.randint(1, 5)]:
             fields.append([fn, gen_spec(rng, version, back, ["C"] if rng.random() < 0.5 else [])])
-        if rng.random() < 0.15:
+        if rng.random() < 0.2:
             fields.append([rng.choice(HOSTILE_FIELDS), gen_spec(rng, version, [], [])])
+        if rng.random() < 0.5:
+            for fn in rng.sample(UNDERSCORE_FIELDS, rng.randint(1, 3)):
+                fields.append([fn, gen_spec(rng, version, [], [])])
         rows.append({"table": table, "nick": nick, "fields": fields})
         back = back + [nick if (nick in SAFE_NICKS) else table]
     hist = None
@@ -166,8 +174,9 @@ def gen_case(rng):
     if rng.random() < 0.5:
         r0 = rng.choice(rows)
         jr = r0["nick"] if r0["nick"] in SAFE_NICKS else r0["table"]
+    extras = {k: True for k in EXTRA_KEYS if rng.random() < 0.4}
     return {"version": version, "rows": rows, "hist": hist, "jr": jr, "n": rng.randint(1, 4),
-            "zero": rng.random() < 0.5}
+            "zero": rng.random() < 0.5, "extras": extras}
 
 
 # ----------------------------------------------------------------------------- rendering
@@ -237,8 +246,12 @@ def render(case, only_just_once=False):
     if case["version"] == 3:
         lines.append("- snowfakery_version: 3")
     lines.append("- plugin: " + PLUGIN)
+    ex = case.get("extras") or {}
     if not only_just_once:
         lines += ["- object: T0", "  count: 2", "  fields:", "    k: 5"]
+        if ex.get("kidh"):  # a hidden table that only ever appears nested in a field
+            lines += ["    hk:", "      - object: __KidH", "        fields:", "          k: 1"]
+    first = True
     for row in case["rows"]:
         lines.append("- object: " + row["table"])
         lines.append("  just_once: true")
@@ -248,9 +261,16 @@ def render(case, only_just_once=False):
         lines.append("    k: 5")
         for fn, spec in row["fields"]:
             lines.append("    %s: %s" % (yq(fn), render_fielddef(spec)))
+        if first and ex.get("jfr"):  # a table that only ever appears as a friend of a just_once row
+            lines += ["  friends:", "    - object: FrQ", "      fields:", "        k: 1"]
+        first = False
     if only_just_once:
         return "\n".join(lines) + "\n"
+    if ex.get("hid"):
+        lines += ["- object: __Hid", "  count: 2", "  fields:", "    k: 1"]
     lines += ["- object: C", "  fields:", "    td: ${{ today }}"]
+    if ex.get("kid"):  # a table that only ever appears nested in a field
+        lines += ["    kid:", "      - object: KidC", "        fields:", "          k: 1"]
     for i, row in enumerate(case["rows"]):
         acc = accessor(case, i)
         if not acc:
@@ -268,6 +288,8 @@ def render(case, only_just_once=False):
     if case.get("hist"):
         lines.append("    hr: {random_reference: %s}" % case["hist"])
         lines.append("    hk: ${{ hr.k }}")
+    if ex.get("fr"):  # a table that only ever appears as a friend
+        lines += ["  friends:", "    - object: FrC", "      fields:", "        k: 1"]
     return "\n".join(lines) + "\n"
 
 
@@ -471,6 +493,20 @@ def run_case(rep, case, pending):
     for k in kinds:
         rep.count("value-kind:" + k)
     rep.count("version:%d" % case["version"])
+    for k in (case.get("extras") or {}):
+        rep.count("extra-table:" + k)
+    for _, r in g1["pNick"] + g1["pTable"]:
+        for f, _x in r["values"]:
+            if f.startswith("__"):
+                rep.count("field-name:hidden")
+            elif f.startswith("_"):
+                rep.count("field-name:underscore")
+            elif not is_ident(f):
+                rep.count("field-name:non-identifier")
+    nt = set(as_dict(g1["nickTable"]).values())
+    for t, _n in g1["lastUsed"]:
+        if t not in nt:
+            rep.count("counter-of-table-not-in-nicknames_and_tables")
     entry = {"case": cs, "g1": g1, "n": case["n"], "keep": [], "real": {}}
     pending.append(entry)
     real = entry["real"]
@@ -589,7 +625,7 @@ def run_case(rep, case, pending):
         if len(o1) == 1 and len(o2) == 1:
             a, b = o1[0], o2[0]
             for k in a:
-                if k in ("id", "hr", "hk"):
+                if k in ("id", "hr", "hk", "kid"):
                     continue
                 if k == "td":
                     # v3: the date object; v2 renders every formula to text
@@ -600,6 +636,16 @@ def run_case(rep, case, pending):
                     rep.violation("C05:observer-differs", f"formula field {k} of the continued run differs from the first run", cs, a[k], b.get(k))
             if "hk" in a and b.get("hk") != a.get("hk"):
                 rep.violation("C05:observer-differs", "field read through random_reference differs", cs, a.get("hk"), b.get("hk"))
+        # every table that has produced rows — top-level, nested-only, friends-only — continues its ids
+        last = as_dict(g1["lastUsed"])
+        firsts = {}
+        for t, f in res2.rows:
+            rid = dict(f).get("id")
+            if isinstance(rid, int) and t not in firsts:
+                firsts[t] = rid
+        for t, rid in firsts.items():
+            if rid != last.get(t, 0) + 1:
+                rep.violation("C05:ids-restart", f"the first {t} row of the continued run has id {rid}, the first run ended at {last.get(t, 0)}", cs, last.get(t, 0) + 1, rid)
         m1, m2 = mapping_of(res1), mapping_of(res2)
         if m1 != m2:
             rep.violation("C05:mapping-differs", "the CCI mapping of the continued run differs from the first run's", cs, m1, m2)
@@ -676,6 +722,13 @@ FIXED = [
      "hist": "R", "jr": "R", "n": 3, "zero": True},
 ]
 
+FIXED.append(
+    {"version": 3, "rows": [
+        {"table": "Q", "nick": "qq", "fields": [[fn, {"via": "lit", "t": "int", "v": str(i)}] for i, fn in enumerate(UNDERSCORE_FIELDS + HOSTILE_FIELDS)]},
+        {"table": "R", "nick": None, "fields": [[fn, {"via": "plugin", "t": "str", "v": "v" + fn}] for fn in UNDERSCORE_FIELDS]}],
+     "hist": "R", "jr": "qq", "n": 2, "zero": True, "extras": {k: True for k in EXTRA_KEYS}})
+FIXED.append(dict(FIXED[-1], version=2))
+
 # a continuation file written before cf894eb (no `!snowfakery_decimal` tag anywhere), with the legacy
 # `nicknamed_objects` key and dependencies in the old list form: it must still load
 LEGACY_FILE = """id_manager:
@@ -740,6 +793,8 @@ def run(ctx, rep, findings):
     rep.rule = ("type-directed generator: 1-3 just_once templates (tables Q/R/S, safe / YAML-hostile / no nickname, repeated "
                 "tables), 1-6 fields each over str (84 YAML-hostile strings + random), int (to 10**30), float, bool, null, "
                 "date, datetime (naive / offsets / microseconds), Decimal, backward row references, forward references; "
+                "field NAMES incl. hidden `__x`, `_x`, id-adjacent, unicode, spaces, dots; extra tables that are nested-only "
+                "(KidC, hidden __KidH), friends-only (FrC, FrQ under a just_once row), hidden top-level (__Hid); "
                 "injected through recipe literals, v3 formulas and a plugin; both dialects; chain length 1-4; observer "
                 "template reading every reachable field by formula, a reference and a random_reference to a just_once "
                 "table. Non-trivial: the run completed and its persistent rows hold >= 2 kinds of values.")
@@ -803,6 +858,10 @@ def shrink(case, signature):
                     break
             if changed:
                 break
+    for k in list((c.get("extras") or {}).keys()):
+        cand = dict(c, extras={a: b for a, b in c["extras"].items() if a != k})
+        if fails(cand):
+            c = cand
     for key, val in (("hist", None), ("jr", None), ("zero", False), ("n", 1)):
         cand = dict(c, **{key: val})
         if cand != c and fails(cand):
